@@ -497,7 +497,7 @@ class _Inliner(object):
                 continue
             if any(callee_name(c) == name for c in h.calls()):
                 continue
-            if len(h.nodes()) > self.max_nodes or ncalls[name] > self.max_sites:
+            if len(h.nodes()) > self.max_nodes or (ncalls[name] > self.max_sites and _expression_body(h) is None):
                 continue
             if any(x.get('k') in ('unknownstmt', 'stmtexpr') for x in walk_all(h.body)):
                 continue
@@ -653,7 +653,7 @@ class _Inliner(object):
             return None
         if k == 'do' and self.has_own_continue(stmt.get('body')):
             return None
-        if k in ('if', 'do'):
+        if k in ('if', 'do', 'while'):
             # if (h(..)) / if (!h(..)) / if (h(..) == c): the call is evaluated exactly once, first;
             # do { .. } while (h(..)): the call is evaluated once per iteration, after the body (no `continue` in the body)
             cond = stmt['c']
@@ -698,6 +698,13 @@ class _Inliner(object):
             if k == 'do':
                 new_if['body'] = {'k': 'compound', 'body': [stmt['body']] + inl, 'id': self.fresh_id(), 'loc': loc}
                 return self.note(H, [tdecl, new_if])
+            if k == 'while':
+                # while (c) body  ==  for (;;) { if (!c) break; body }   (continue re-evaluates c in both forms)
+                neg = {'k': 'un', 'op': '!', 'e': swap(cond), 'id': self.fresh_id(), 'loc': loc, 'ty': strip_casts(cond).get('ty')}
+                brk = {'k': 'if', 'c': neg, 't': {'k': 'break', 'id': self.fresh_id(), 'loc': loc}, 'id': self.fresh_id(), 'loc': loc}
+                loop = {'k': 'for', 'id': self.fresh_id(), 'loc': loc,
+                        'body': {'k': 'compound', 'body': inl + [brk, stmt['body']], 'id': self.fresh_id(), 'loc': loc}}
+                return self.note(H, [tdecl, loop])
             return self.note(H, [tdecl] + inl + [new_if])
         # expression statement
         e = stmt
@@ -735,6 +742,54 @@ class _Inliner(object):
         return res
 
 
+_PURE_LIBC = {'strncmp', 'memcmp', 'strcmp', 'strlen', 'tolower', 'toupper', 'isdigit', 'isspace'}
+
+
+def _expression_body(H):
+    """E when H's body is `return E;`, possibly after guards `if (G) return <constant>;`, everything free of side effects (calls
+    of pure libc functions allowed): the value is  !G1 && !G2 && E  (guards returning 0) /  G || ..  (guards returning non-zero)"""
+    b = H.body
+    if b is None or b.get('k') != 'compound' or not b.get('body'):
+        return None
+    stmts = b['body']
+    last = stmts[-1]
+    if last.get('k') != 'return' or 'e' not in last:
+        return None
+
+    def pure(e):
+        for x in walk(e):
+            k = x.get('k')
+            if (k == 'bin' and x.get('op') in ASSIGN_OPS) or (k == 'un' and x.get('op') in ('pre++', 'pre--', 'post++', 'post--')) or \
+                    k in ('stmtexpr', 'unknown'):
+                return False
+            if k == 'call' and callee_name(x) not in _PURE_LIBC:
+                return False
+        return True
+    if not pure(last['e']):
+        return None
+    guards = []
+    for st in stmts[:-1]:
+        if st.get('k') != 'if' or 'e' in st:
+            return None
+        t = st['t']
+        if t.get('k') == 'compound' and len(t.get('body', [])) == 1:
+            t = t['body'][0]
+        if t.get('k') != 'return' or 'e' not in t or const_val(t['e']) is None or not pure(st['c']):
+            return None
+        guards.append((st['c'], const_val(t['e'])))
+    res = last['e']
+    ty = strip_casts(res).get('ty')
+    for (g, c) in reversed(guards):
+        if c == 0:
+            res = {'k': 'bin', 'op': '&&', 'l': {'k': 'un', 'op': '!', 'e': g, 'id': 0, 'loc': g.get('loc', [0, 0]), 'ty': ty},
+                   'r': res, 'id': 0, 'loc': g.get('loc', [0, 0]), 'ty': ty}
+        elif c == 1:
+            res = {'k': 'bin', 'op': '||', 'l': g, 'r': res, 'id': 0, 'loc': g.get('loc', [0, 0]), 'ty': ty}
+        else:
+            return None
+    return res
+
+
 def inline_new_helpers(u, known):
     """view of u with the static helpers that are not in `known` inlined where they are called (see above); u if none"""
     inl = _Inliner(u, known)
@@ -747,6 +802,65 @@ def inline_new_helpers(u, known):
             break
         inl.done = {}
         new_raw = {}
+        # predicates whose body is one side-effect-free expression are substituted wherever they are called (like the macros
+        # can_read / can_access_at_index they usually replace), also inside && / || and loop conditions
+        exprs = {n: _expression_body(h) for n, h in cands.items()}
+        exprs = {n: e for n, e in exprs.items() if e is not None}
+        if exprs:
+            def sub_calls(node, fname):
+                if isinstance(node, list):
+                    return [sub_calls(x, fname) for x in node]
+                if not isinstance(node, dict):
+                    return node
+                if node.get('k') == 'call' and callee_name(node) in exprs and callee_name(node) != fname and \
+                        len(node.get('args', [])) == len(cands[callee_name(node)].params) and \
+                        all(_side_effect_free(a) for a in node['args']):
+                    H = cands[callee_name(node)]
+                    args = [sub_calls(a, fname) for a in node['args']]
+                    sub = {p_['d']: strip_casts(a_) for p_, a_ in zip(H.params, args)}
+                    fresh = [inl.next_id]
+                    out = _subst_inline(exprs[H.name], sub, fresh)
+                    inl.next_id = fresh[0] + 1
+                    inl.done[H.name] = inl.done.get(H.name, 0) + 1
+                    if 'ty' in node and isinstance(out, dict):
+                        out = dict(out)
+                    return out
+                return {k: sub_calls(v, fname) for k, v in node.items()}
+            for f in cur.function_list:
+                if f.body is None or not any(callee_name(c) in exprs for c in f.calls()):
+                    continue
+                before = dict(inl.done)
+                body = sub_calls(f.body, f.name)
+                if inl.done != before:
+                    raw = dict(f.raw)
+                    raw['body'] = body
+                    raw['inlined'] = sorted(set(f.raw.get('inlined', [])) | {n for n in inl.done if inl.done[n] != before.get(n, 0)})
+                    new_raw[f.name] = raw
+            if new_raw:
+                for n_, c_ in inl.done.items():
+                    total[n_] = total.get(n_, 0) + c_
+                view = copy.copy(cur)
+                for attr in [a_ for a_ in vars(view) if a_.startswith('_')]:
+                    delattr(view, attr)
+                view.functions = {}
+                view.function_list = []
+                for f in cur.function_list:
+                    nf = Function(view, new_raw[f.name]) if f.name in new_raw else f
+                    view.functions[nf.name] = nf
+                    view.function_list.append(nf)
+                still = set()
+                for f in view.function_list:
+                    if f.body is not None:
+                        for c in f.calls():
+                            still.add(callee_name(c))
+                gone = [n for n in exprs if n not in still]
+                if gone:
+                    view.function_list = [f for f in view.function_list if f.name not in gone]
+                    view.functions = {f.name: f for f in view.function_list}
+                view.by_decl = {fn.d: fn for fn in view.function_list}
+                view.inlined_helpers = dict(total)
+                cur = view
+                continue        # next round: statement-level inlining sees the substituted program
         for f in cur.function_list:
             if f.body is None or not any(callee_name(c) in cands for c in f.calls()):
                 continue
